@@ -645,6 +645,19 @@ class SingleAdapter(Adapter, ABC):
             front_adapter,
             internal,
         )
+        if self.indels:
+            # With insertions in the read, an occurrence can be up to max_errors
+            # characters longer than the adapter part it contains, so the search
+            # windows at the read ends need to be that much wider
+            max_errors = int(len(sequence) * self.max_error_rate)
+            positions_and_kmers = [
+                (
+                    start - max_errors if start < 0 else start,
+                    stop + max_errors if stop is not None else stop,
+                    kmers,
+                )
+                for start, stop, kmers in positions_and_kmers
+            ]
         if self._debug:
             print(kmer_probability_analysis(positions_and_kmers))
         try:
